@@ -968,3 +968,101 @@ mut("c09-benign-inline-set-writeable", "C09", A,
                     this.writeable = true;
                 }""",
     None, "helper inlined")
+
+# ---- C02 -------------------------------------------------------------------------------------------------
+mut("c02-stream-on-greater", "C02", ST,
+    """                    // Loop around to move stream body
+                    Ordering::Equal if head.content_length != 0 => State::Stream,""",
+    """                    // Loop around to move stream body
+                    Ordering::Equal | Ordering::Greater if head.content_length != 0 => State::Stream,""",
+    "R2.", "a later stream's data is delivered as the active stream's")
+mut("c02-raw-start-skips-undelivered", "C02", ST,
+    """        debug_assert!(consumed <= payload_len);
+        self.raw_start += consumed;""",
+    """        debug_assert!(consumed <= payload_len);
+        self.raw_start += payload_len;""",
+    "R2.3/payload-step/same-amount", "bytes that did not fit the caller's buffer are skipped")
+mut("c02-end-row-consumes-header", "C02", ST,
+    """                    _ => {
+                        res.stream_end = true;
+                        return Ok(Break(()));
+                    },""",
+    """                    _ => {
+                        res.stream_end = true;
+                        self.raw_start = past_head;
+                        return Ok(Break(()));
+                    },""",
+    "R2.4/stream/", "the header announcing the next stream is lost")
+mut("c02-skip-state-counts-bytes", "C02", ST,
+    """            State::Skip => payload_len,
+""",
+    """            State::Skip => {
+                res.stream += 0usize.saturating_sub(payload_len);
+                payload_len
+            },
+""",
+    "R2.2/payload-step/deliver-only-in-stream", "Status.stream touched while skipping")
+mut("c02-drop-dest-assert", "C02", ST,
+    """        assert!(
+            dest.is_none() || self.parsed_start == self.gap_start,
+            "stream_buffer must be fully consumed before parsing into dest is possible",
+        );
+""", "",
+    "R2.5/parse/dest-needs-empty-buffer", "newer bytes delivered before older buffered ones")
+mut("c02-benign-split-payload-step", "C02", ST,
+    """        debug_assert!(consumed <= payload_len);
+        self.raw_start += consumed;
+        self.payload_rem -= consumed as u16;
+        debug_assert_invars!(self);
+""",
+    """        debug_assert!(consumed <= payload_len);
+        self.account(consumed);
+""",
+    None, "accounting moved into a helper",
+    extra=[("""    fn parse_head(&mut self, res: &mut Status) -> Result<ControlFlow, Error> {""", """    fn account(&mut self, consumed: usize) {
+        self.raw_start += consumed;
+        self.payload_rem -= consumed as u16;
+        debug_assert_invars!(self);
+    }
+
+    fn parse_head(&mut self, res: &mut Status) -> Result<ControlFlow, Error> {""")])
+
+# ---- C01 -------------------------------------------------------------------------------------------------
+mut("c01-unnormalised-key", "C01", RQ,
+    """        let name = Self::make_cgivar(name);
+
+        // Unlike name""",
+    """        let name = cgi::OwnedVarName::from(&*String::from_utf8_lossy(name));
+
+        // Unlike name""",
+    "R1.1", "a pair split across records keeps its spelling: lookups by the canonical name miss it")
+mut("c01-first-value-wins", "C01", RQ,
+    """        self.req.params.insert(name, val);
+        self.buffer.clear();""",
+    """        self.req.params.entry(name).or_insert(val);
+        self.buffer.clear();""",
+    "R1.2", "duplicates split across records keep the first value")
+mut("c17-flags-from-wrong-byte", "C17", PB,
+    """        Ok(Self { role: Role::try_from(role)?, flags: RequestFlags::from(data[2]) })""",
+    """        Ok(Self { role: Role::try_from(role)?, flags: RequestFlags::from(data[3]) })""",
+    "R17.7/layout[BeginRequest]", "flags taken from a reserved byte")
+mut("c01-padding-from-content-length", "C01", RQ,
+    """                self.payload_rem = head.content_length;
+                self.padding_rem = head.padding_length;
+                Continue((data, self.into_state()))""",
+    """                self.payload_rem = head.content_length;
+                self.padding_rem = head.content_length as u8;
+                Continue((data, self.into_state()))""",
+    "R1.", "padding counter loaded from the payload length")
+mut("c01-params-end-on-foreign-id", "C01", RQ,
+    """            fcgi::RecordType::Params if head.request_id == req_id => {""",
+    """            fcgi::RecordType::Params => {""",
+    "R1.4", "an empty Params record of another request ends this request's environment")
+mut("c01-benign-inline-make-cgivar", "C01", RQ,
+    """        self.req.params.extend((&mut nvit).map(
+            |(n, v)| (Self::make_cgivar(n), SmallBytes::from_slice(v)),
+        ));""",
+    """        self.req.params.extend((&mut nvit).map(
+            |(n, v)| (cgi::OwnedVarName::from_compact(CompactString::from_utf8_lossy(n)), SmallBytes::from_slice(v)),
+        ));""",
+    None, "helper inlined at one call site")
